@@ -1,7 +1,7 @@
 /-
 C47 — property theorems about the registry model (Model.lean); helper lemmas in Lemmas.lean.
 -/
-import TfelVerif.C47.Lemmas
+import TfelVerif.C47.LemMerge
 
 namespace TfelVerif.C47
 
@@ -71,6 +71,20 @@ theorem mergeLib_idempotent (d s r : Lib) (h : mergeLib d s = .ok r) : mergeLib 
   · rename_i hc
     cases h
     simp only [hc, Bool.false_eq_true, ↓reduceIte, insertAll_idempotent]
+
+/-- (b) `mergeTargetsDescription`: when it succeeds, every library of the destination and of the source is
+    recorded in the result with all its sources, flags, directories, entry points and dependencies
+    (`Lib.le`: same name, every non-empty element kept) -/
+theorem mergeDesc_keeps_every_library (cfg : Cfg) (d s r : Desc) (b : Bool) (h : mergeDesc cfg d s b = .ok r) :
+    (∀ l ∈ d.libs, ∃ l' ∈ r.libs, l.le l') ∧ (∀ l ∈ s.libs, ∃ l' ∈ r.libs, l.le l') :=
+  mergeDesc_le cfg d s r b h
+
+/-- (b) a history of successful runs records the union of the runs' descriptions: every library of the
+    initial registry and of every run, with everything it listed, is in the final registry -/
+theorem history_records_the_union (cfg : Cfg) (d r : Desc) (hist : List Desc)
+    (h : mergeHistory cfg d hist = .ok r) :
+    (∀ l ∈ d.libs, ∃ l' ∈ r.libs, l.le l') ∧ ∀ s ∈ hist, ∀ l ∈ s.libs, ∃ l' ∈ r.libs, l.le l' :=
+  mergeHistory_le cfg hist d r h
 
 /-! ## (d) crash model -/
 
